@@ -479,9 +479,7 @@ def describe(key, prev, expected, got, sub=False):
     if got == ABSENT:
         return f"{kt}:key-missing-in-result"
     if got == prev and type(got) is type(prev) and expected != prev:
-        if type(expected) in (int, str, list, dict) and not expected:
-            return "assignment-of-an-empty-value-had-no-effect"  # "", 0, [], {}: treated as "not given"
-        return "assignment-had-no-effect"
+        return "assignment-had-no-effect"  # (refined by judge(): see NO_EFFECT_EMPTY)
     if expected == prev and type(expected) is type(prev):
         return f"{kt}:key-changed-by-a-source-that-does-not-mention-it"
     if kt in ("flat", "nested", "str"):
@@ -537,6 +535,34 @@ def origin_class(base, source_name):
 
 
 PHYSICAL = ["D1", "Ga", "Gb", "D3", "envcfg", "envvars", "given"]
+
+# "assignment had no effect" is refined differentially when the assigned value is empty ("" / 0 / [] / {}): the same
+# history is executed with the NON-EMPTY twin of the source in question (same keys, same position); if that
+# assignment is applied, the cause is the emptiness of the value and not the position of the source
+NO_EFFECT_EMPTY = "assignment-of-an-empty-value-had-no-effect"
+TWIN = {"t0": "t", "a0": "a", "n.x0": "n.x", "l0": "l", "d0": "d", "cfgstr:Z": "cfgstr:R", "cfgfile:Z": "cfgfile:R",
+        "rootcfgstr:Z": "rootcfgstr:R", "rootcfgfile:Z": "rootcfgfile:R"}  # fmt: skip
+
+
+def is_empty_value(v):
+    return type(v) in (int, str, list, dict) and not v
+
+
+def twin_base(b, added):
+    """The base b with the non-CLI source `added` replaced by its non-empty twin (None if it has no empty values)."""
+    t = dict(b)
+    dcf = b.get("dcf") or {}
+    if added in DCF_SLOTS and dcf.get(added) == "Z":
+        t["dcf"] = {**dcf, added: "R"}
+    elif added == "envcfg" and b.get("envcfg") and b["envcfg"][0] == "Z":
+        t["envcfg"] = ["R", b["envcfg"][1]]
+    elif added == "envvars" and any(x in TWIN for x in b.get("envvars") or []):
+        t["envvars"] = [TWIN.get(x, x) for x in b["envvars"]]
+    elif added == "given" and b.get("given") == "Z":
+        t["given"] = "R"
+    else:
+        return None
+    return t
 
 
 def truncations(base):
@@ -615,10 +641,20 @@ def judge(base, clis):
         inherited = 0
         ctxt = f"argv={o['argv']} sources={[n for n, _ in sources]} environ={o['environ']} method={method}"
         if o["kind"] != "ok":
-            last = origin_class(base, sources[-1][0]) if sources else "none"
-            devs.append(
-                {"signature": f"{fam}valid-input-rejected:{o['kind']}:{method}:last-source={last}", "detail": f"{o.get('error')}; {ctxt}"}
-            )
+            # origin of a rejection: the source whose addition makes the (so far accepted) history rejected
+            if cli and get(cli[:-1])["kind"] != "ok":
+                inherited += 1  # the prefix is rejected already (it is a case of its own and reported there)
+            else:
+                last = origin_class(base, sources[-1][0]) if sources else "none"
+                if not cli:
+                    chain = truncations(base)  # [(no source, None), ..., (base, last non-CLI source)]
+                    i = len(chain) - 1
+                    while i > 0 and chain_obs(chain[i - 1][0])["kind"] != "ok":  # walk back while rejected as well
+                        i -= 1
+                    last = origin_class(base, physical_source_name(base, chain[i][1])) if chain[i][1] else "none"
+                devs.append(
+                    {"signature": f"{fam}valid-input-rejected:{o['kind']}:{method}:last-source={last}", "detail": f"{o.get('error')}; {ctxt}"}
+                )
         else:
             wrong = [k for k in KEYS if o["typed"][k] != tcanon(want[k])]
             if wrong and cli:
@@ -635,9 +671,14 @@ def judge(base, clis):
                     if o["typed"][k] == tcanon(E[k]):
                         inherited += 1  # this step is right; the state it started from was already wrong
                         continue
+                    what = describe(k, P[k], E[k], o["plain"][k], bool(fam))
+                    if what == "assignment-had-no-effect" and is_empty_value(E[k]) and cli[-1] in TWIN:
+                        ot = get(cli[:-1] + [TWIN[cli[-1]]])
+                        if ot["kind"] == "ok" and ot["typed"][k] == tcanon(fold(P, ot["sources"][-1:])[k]):
+                            what = NO_EFFECT_EMPTY
                     devs.append(
                         {
-                            "signature": f"{fam}{describe(k, P[k], E[k], o['plain'][k], bool(fam))}:by={by}",
+                            "signature": f"{fam}{what}:by={by}",
                             "detail": f"key {k!r}: before the last item {P[k]!r}, fold gives {E[k]!r}, implementation {o['plain'][k]!r}; {ctxt}",
                         }
                     )
@@ -658,12 +699,19 @@ def judge(base, clis):
                             what = describe(k, Pk, wi[k], gk, bool(fam))
                             if name.endswith("(environment disabled)"):
                                 what = "source-applied-although-the-environment-is-switched-off"
+                            if what == "assignment-had-no-effect" and is_empty_value(wi[k]) and twin_base(b_i, added):
+                                ot = chain_obs(twin_base(b_i, added))
+                                if ot["kind"] == "ok" and ot["typed"][k] == tcanon(fold(init, ot["sources"])[k]):
+                                    what = NO_EFFECT_EMPTY
                             # the trigger of "source ignored" in the subcommand shape is how the subcommand was selected
                             tag = sel_tag if what == "assignment-had-no-effect" else ""
-                            if added in DCF_SLOTS and any(
-                                (base.get("dcf") or {}).get(s_) in RAW_CONTENT for s_ in DCF_SLOTS[: DCF_SLOTS.index(added)]
-                            ):
-                                tag += ":after-an-empty-default-config-file"
+                            if added in DCF_SLOTS:
+                                # differential again: does the file work once the empty files before it are removed?
+                                before = [s_ for s_ in DCF_SLOTS[: DCF_SLOTS.index(added)] if b_i["dcf"].get(s_) in RAW_CONTENT]
+                                if before:
+                                    ot = chain_obs(dict(b_i, dcf={s_: k_ for s_, k_ in b_i["dcf"].items() if s_ not in before}))
+                                    if ot["kind"] == "ok" and ot["typed"][k] == tcanon(fold(init, ot["sources"])[k]):
+                                        tag += ":after-an-empty-default-config-file"
                             devs.append(
                                 {
                                     "signature": f"{fam}{what}:by={origin_class(base, name)}{tag}",
@@ -828,7 +876,8 @@ def empties_bases(shape, small=False, method="parse_args", givens=(None,), modes
     """Every non-CLI source class is absent / carries its standard payload / carries EMPTY content: default config
     files with empty values, of 0 bytes, whitespace only; an env config that assigns empty values (or nothing: {});
     env variables that are present with the empty value of their type.  small: the three default config slots go
-    together (all absent / all standard / all empty) and the env config may also be the document {}."""
+    together (all absent / all standard / all empty) and the env config may also be the document {}; small="diag":
+    additionally env config and env variables go together (both absent / standard / empty)."""
     d1s = (None, "R", "Z")
     gs = (None, ("A", "R"), ("E0", "Z"))
     d3s = (None, "A", "EW")
@@ -846,15 +895,17 @@ def empties_bases(shape, small=False, method="parse_args", givens=(None,), modes
                 c["D3"] = d3
             dcfs.append(c)
     envcfgs = [None, ["R", "str"], ["Z", "str"]] + ([["E", "str"]] if small else [])
+    envs = [(c, e) for c in envcfgs for e in ([], ENVVARS_ALL, ENVVARS_EMPTY)]
+    if small == "diag":  # the two environment sources go together as well: 3 x 3 bases
+        envs = [(None, []), (["R", "str"], ENVVARS_ALL), (["Z", "str"], ENVVARS_EMPTY)]
     for dcf in dcfs:
-        for envcfg in envcfgs:
-            for envvars in ([], ENVVARS_ALL, ENVVARS_EMPTY):
-                for mode in modes:
-                    for given in givens:
-                        b = {"shape": shape, "mode": mode, "listed": "all", "dcf": dcf, "envcfg": envcfg, "envvars": envvars, "method": method}
-                        if given:
-                            b["given"] = given
-                        yield b
+        for envcfg, envvars in envs:
+            for mode in modes:
+                for given in givens:
+                    b = {"shape": shape, "mode": mode, "listed": "all", "dcf": dcf, "envcfg": envcfg, "envvars": envvars, "method": method}
+                    if given:
+                        b["given"] = given
+                    yield b
 
 
 def bases(shape, dcf_level, env_level, modes=("on",), listed=("all",), method="parse_args", givens=(None,)):
@@ -913,8 +964,8 @@ def plan(ctx):
     # stay, so both forms and both kinds are there at depth 3); both items stay in B3 / B4 up to length 2
     deep = [x for x in A if x not in ("n.y", "cfgstr:A")] if quick else A
     # 8 of the 12 combinations: with an env config, the env variables go together with the default config files
-    # (the other four are covered one notch shallower by B3)
-    deep_bases = [b for b in bases("flat", "two", "std") if bool(b["dcf"]) == bool(b["envvars"]) or b["envcfg"] is None]
+    # (the other four are covered one notch shallower by B3); quick: they always go together (6 combinations)
+    deep_bases = [b for b in bases("flat", "two", "std") if bool(b["dcf"]) == bool(b["envvars"]) or (b["envcfg"] is None and not quick)]
     blocks.append(("deep-cli", deep_bases, list(sequences(deep, 3 if quick else 4))))
     # B1b the quantifier speaks of up to 6 command line items: longer histories over the four items that build on
     #     the state (append, config with append, dict item, replacing config string), on the fullest non-CLI base
@@ -970,9 +1021,11 @@ def plan(ctx):
     E1 = ["t0", "a0", "l0", "d0", "l+", "d.k", "cfgstr:Z"]
     E2 = CLI_EMPTY + ["l+", "d.k"]
     blocks.append(("empty-values-wide", list(empties_bases("flat")), list(sequences(E1 if quick else E2, 1))))
-    blocks.append(("empty-values-cli", list(empties_bases("flat", small=True)), list(sequences(E2, 2 if quick else 3))))
+    blocks.append(("empty-values-cli", list(empties_bases("flat", small="diag")), list(sequences(E2, 2 if quick else 3))))
+    if not quick:
+        blocks.append(("empty-values-cli2", list(empties_bases("flat", small=True)), list(sequences(E2, 2))))
     for shape in ("dc", "flat0"):
-        blocks.append((f"empty-values-{shape}", list(empties_bases(shape, small=True)), list(sequences(E2, 1 if quick else 2))))
+        blocks.append((f"empty-values-{shape}", list(empties_bases(shape, small="diag" if quick else True)), list(sequences(E2, 1 if quick else 2))))
     # B8c the other parse methods and the environment switches on the same bases
     em = []
     for m in ("parse_env", "parse_env_dict"):
@@ -983,7 +1036,7 @@ def plan(ctx):
     blocks.append(("empty-values-methods", em, [[]]))
     # B8d inside a subcommand (root-level documents with s: {...}, variables APP_S__*)
     sube = []
-    for b in empties_bases("sub", small=True, modes=("on", "off")):
+    for b in empties_bases("sub", small="diag" if quick else True, modes=("on", "off")):
         for es in (False, True) if b["mode"] == "on" else (False,):
             sube.append(dict(b, env_subcommand=es))
     SE = ["t0", "l0", "l+", "d.k", "rootcfgstr:Z", "cfgstr:Z"]
